@@ -53,7 +53,28 @@ type TypeGuard struct {
 	// TypeVar resolves an expression to the abstract type of a package-level type variable
 	// (integerType = reflect.TypeOf(0)), if it is one.
 	TypeVar func(e ast.Expr) (AbsType, bool)
-	depth   int
+	// Defs, when set, lets Eval enter a call of a local closure (`unnamed := func(k Kind) bool
+	// { return t != nil && t.Kind() == k … }`): a name bound once to a function literal whose
+	// body is a single return; its parameters stand for the arguments.
+	Defs  *LocalDefs
+	subst map[types.Object]ast.Expr
+	depth int
+}
+
+func (g *TypeGuard) resolve(e ast.Expr) ast.Expr {
+	e = Unparen(e)
+	for i := 0; i < 4; i++ {
+		id, ok := e.(*ast.Ident)
+		if !ok || g.subst == nil {
+			return e
+		}
+		r, ok := g.subst[g.Info.Uses[id]]
+		if !ok {
+			return e
+		}
+		e = Unparen(r)
+	}
+	return e
 }
 
 type PredInfo struct {
@@ -127,13 +148,41 @@ func (g *TypeGuard) Eval(cond ast.Expr, a AbsType) int {
 				return pi.Guard.evalBody(pi.Body, a)
 			}
 		}
+		// a local closure with a single return
+		if id, ok := Unparen(x.Fun).(*ast.Ident); ok && g.Defs != nil && g.depth < 3 {
+			if fl, ok := Unparen(g.Defs.Def(g.Info.Uses[id])).(*ast.FuncLit); ok && len(fl.Body.List) == 1 {
+				if rs, ok := fl.Body.List[0].(*ast.ReturnStmt); ok && len(rs.Results) == 1 {
+					saved := g.subst
+					g.subst = map[types.Object]ast.Expr{}
+					for k, v := range saved {
+						g.subst[k] = v
+					}
+					i := 0
+					if fl.Type.Params != nil {
+						for _, f := range fl.Type.Params.List {
+							for _, nm := range f.Names {
+								if i < len(x.Args) {
+									g.subst[g.Info.Defs[nm]] = x.Args[i]
+								}
+								i++
+							}
+						}
+					}
+					g.depth++
+					v := g.Eval(rs.Results[0], a)
+					g.depth--
+					g.subst = saved
+					return v
+				}
+			}
+		}
 	}
 	return tvUnk
 }
 
 // evalEq: truth of `l == r` where l speaks about the type.
 func (g *TypeGuard) evalEq(l, r ast.Expr, a AbsType) int {
-	l, r = Unparen(l), Unparen(r)
+	l, r = g.resolve(l), g.resolve(r)
 	if g.Is(l) {
 		if id, ok := r.(*ast.Ident); ok {
 			if _, isNil := g.Info.Uses[id].(*types.Nil); isNil {
